@@ -67,6 +67,8 @@ def make_loss(cfg):
         hfun = {"ode": (lambda t, u, params: poly_jax(hc, jnp.atleast_1d(t))), "statio": (lambda x, u, params: poly_jax(hc, x)),
                 "nonstatio": (lambda t, x, u, params: poly_jax(hc, jnp.concatenate([t, x])))}[kind]
         hkw = dict(eq_params_heterogeneity={"c": hfun})
+        if kind != "statio" and cfg.get("tmax"):
+            hkw["Tmax"] = cfg["tmax"]          # (these equations do not use Tmax; c is the function's value at the point the equation receives)
     if kind == "ode":
         class Eq(jinns.loss.ODE):
             def equation(self, t, u, params):
